@@ -877,6 +877,25 @@ impl Sim {
                     CtxKind::Restart => {
                         props.push("C16");
                         props.push("C11");
+                        // a marker whose request has been removed (by id or by vanish) since: removal
+                        // leaves markers untouched, now and for good
+                        let names_subject = |d: &EvSpec| -> bool {
+                            d.tags.iter().any(|t| {
+                                t.len() >= 2
+                                    && match kind {
+                                        "delid" => t[0] == "e" && parse_e_target(&t[1]) == subject,
+                                        _ => {
+                                            t[0] == "a"
+                                                && parse_a_target(&t[1])
+                                                    .map(|a| key == format!("deladdr/{}/{}/{}", a.kind, hex(&a.pk), hex(&a.d)))
+                                                    .unwrap_or(false)
+                                        }
+                                    }
+                            })
+                        };
+                        if self.model.events.values().any(|d| d.kind == 5 && !self.model.retrievable.contains(&d.id) && names_subject(d)) {
+                            props.push("C18");
+                        }
                     }
                     CtxKind::Other => props.push("C11"),
                 }
